@@ -600,6 +600,22 @@ func (tm *TileMatrix) UnmarshalJSONFromMap(data interface{}) error {
 		return fmt.Errorf(`data is not a map but a %T`, data)
 	}
 
+	// negative numbers would wrap around in the unsigned fields and pass validation
+	err = checkNotNegative(dataMap, "tileWidth", "tileHeight", "matrixWidth", "matrixHeight")
+	if err != nil {
+		return err
+	}
+	if rawVariableMatrixWidths, ok := dataMap["variableMatrixWidths"].([]interface{}); ok {
+		for _, rawVariableMatrixWidth := range rawVariableMatrixWidths {
+			if variableMatrixWidthMap, ok := rawVariableMatrixWidth.(map[string]interface{}); ok {
+				err = checkNotNegative(variableMatrixWidthMap, "coalesce", "minTileRow", "maxTileRow")
+				if err != nil {
+					return err
+				}
+			}
+		}
+	}
+
 	_, err = marshmallow.UnmarshalFromJSONMap(dataMap, tm, marshmallow.WithExcludeKnownFieldsFromMap(true))
 	if err != nil {
 		return err
@@ -607,6 +623,15 @@ func (tm *TileMatrix) UnmarshalJSONFromMap(data interface{}) error {
 
 	validate := validator.New(validator.WithRequiredStructEnabled())
 	return validate.Struct(tm)
+}
+
+func checkNotNegative(dataMap map[string]interface{}, keys ...string) error {
+	for _, key := range keys {
+		if number, ok := dataMap[key].(float64); ok && number < 0 {
+			return fmt.Errorf(`%s should not be negative: %v`, key, number)
+		}
+	}
+	return nil
 }
 
 type CornerOfOrigin string
